@@ -700,6 +700,39 @@ def _compute_ranges(content_length: int, chunk_size: int) -> list[tuple[int, int
     return ranges
 
 
+_CONTENT_RANGE_RE = re.compile(r"^\s*bytes\s+(\d+)-(\d+)/(\d+|\*)\s*$", re.IGNORECASE)
+
+
+def _content_range_mismatch(content_range: str, start: int, end: int, content_length: int | None) -> str | None:
+    """Describe how a 206's ``Content-Range`` disagrees with the request, or return ``None``.
+
+    Args:
+        content_range: The ``Content-Range`` header value of the 206 response.
+        start: First requested byte (inclusive).
+        end: Last requested byte (inclusive).
+        content_length: Object size learned from the probe, or ``None`` when
+            the caller has no expectation for the total.
+
+    Returns:
+        A short description of the disagreement, or ``None`` when the header
+        names exactly the requested range of an object of the expected size.
+
+    """
+    match = _CONTENT_RANGE_RE.match(content_range)
+    if match is None:
+        return "unparseable Content-Range"
+    try:
+        got_start, got_end = int(match.group(1)), int(match.group(2))
+        got_total = None if match.group(3) == "*" else int(match.group(3))
+    except ValueError:  # more digits than int() accepts
+        return "unparseable Content-Range"
+    if (got_start, got_end) != (start, end):
+        return f"origin answered bytes {got_start}-{got_end}"
+    if content_length is not None and got_total is not None and got_total != content_length:
+        return f"origin reports a total of {got_total} bytes, probe reported {content_length}"
+    return None
+
+
 async def _fetch_one_chunk(
     client: aiohttp.ClientSession,
     url: str,
@@ -708,6 +741,8 @@ async def _fetch_one_chunk(
     semaphore: asyncio.Semaphore,
     config: FetchConfig,
     url_validator: Callable[[str], None] | None,
+    *,
+    content_length: int | None = None,
 ) -> bytes:
     """Fetch a single byte range.
 
@@ -715,6 +750,13 @@ async def _fetch_one_chunk(
     server ignores the Range header and returns 200, it would silently
     deliver the full body for every chunk, corrupting the reassembled
     result.
+
+    When the 206 carries a ``Content-Range`` header it must name exactly the
+    requested range and, if it states a total, the object size the probe
+    reported (*content_length*).  A response for a different range, or for an
+    object whose size differs from the one the chunk plan was computed from,
+    would otherwise be spliced into the result as if it were the requested
+    bytes.
     """
     expected_size = end - start + 1
     async with semaphore:
@@ -725,6 +767,13 @@ async def _fetch_one_chunk(
                 raise RuntimeError(
                     f"Expected HTTP 206 for Range request, got {resp.status} (bytes={start}-{end} of {redact_url(url)})"
                 )
+            content_range = resp.headers.get("Content-Range")
+            if content_range is not None:
+                mismatch = _content_range_mismatch(content_range, start, end, content_length)
+                if mismatch is not None:
+                    raise RuntimeError(
+                        f"Range response does not match request: {mismatch} (bytes={start}-{end} of {redact_url(url)})"
+                    )
             try:
                 return await _read_range_response_body(resp, expected_size, config)
             except RuntimeError as exc:
@@ -755,7 +804,9 @@ async def _fetch_chunks_with_hedging(
         t0 = time.monotonic()
 
         async def _timed_fetch() -> tuple[int, bytes]:
-            data = await _fetch_one_chunk(client, url, start, end, semaphore, config, url_validator)
+            data = await _fetch_one_chunk(
+                client, url, start, end, semaphore, config, url_validator, content_length=content_length
+            )
             elapsed = time.monotonic() - t0
             completion_times.append(elapsed)
             return idx, data
